@@ -1,4 +1,5 @@
 import Rare.Proofs.C14Log
+import Rare.Proofs.C14Legend
 import Rare.Gen.C14
 /-!
 # C14 – Renderers never crash and draw quantities proportionally within bounds
@@ -9,7 +10,8 @@ negative values), a20c03a (aliased value slices), b1ca348 (heatmap header loop),
 no columns), 6408ebf (inverted remapped range), c54b92c (sparkline header measured in bytes),
 73473fc (reduce table: group key with more parts than group columns), 7b183e0 (histogram refresh skipped
 rows with a value ≤ 0), f0d0278 (histogram / bar graph key column padded in runes but measured in visible characters),
-cde79bf (bar graph: a key that widens the key column did not re-draw the rows already written).
+cde79bf (bar graph: a key that widens the key column did not re-draw the rows already written),
+4855857 (histogram: `WriteForLine(len(items), …)` indexed out of range – the guard was `line > len(items)`).
 
 Numbers: the model is polymorphic in the `float64` operations (`Arith α`).  Two instances carry theorems:
 ℚ (`ratArith L2 L10`: exact conversion and `+ - * /`, abstract logarithms only assumed monotone and
@@ -105,7 +107,7 @@ theorem key_column_code_matches_source :
     Gen.C14.padVisibleBody = ["if pad := width - color.StrLen(s); pad > 0 { return s + strings.Repeat(\" \", pad) }", "return s"] ∧
     Gen.C14.keyCellCalls = ["color.Wrap(color.Yellow, padVisible(key, s.textSpacing))", "color.Wrap(color.Yellow, padVisible(key, s.maxKeyLength))",
       "color.Wrap(color.Yellow, padVisible(key, s.maxKeyLength))"] ∧
-    Gen.C14.histoWriteForLineBody = ["if line > len(s.items) { return }", "needsFullRefresh := false",
+    Gen.C14.histoWriteForLineBody = ["if line >= len(s.items) { return }", "needsFullRefresh := false",
       "if klen := color.StrLen(key); klen > s.textSpacing { s.textSpacing = klen needsFullRefresh = true }",
       "if val > s.maxVal { s.maxVal = val needsFullRefresh = true }", "s.items[line] = histoPair{ key: key, val: val, set: true, }",
       "if needsFullRefresh { s.fullRender() } else { s.writeLine(line, key, val) }"] ∧
@@ -590,8 +592,8 @@ theorem histo_new_invariant {α : Type} {A : Arith α} {Dom : Int → Prop} {Uni
   histo_new_inv U env maxLines showBar showPct scaler fmt h hn
 
 /-- `histo_redraw_invariant`.  From any state satisfying `HistoInv` (a new histogram, or the state after any calls),
-EVERY sequence of `WriteForLine(n, key, val)` / `UpdateTotal(total)` calls – any lines in any order, lines
-rewritten, keys that widen the key column, values that raise the running maximum, zero and negative
+EVERY sequence of `WriteForLine(n, key, val)` / `UpdateTotal(total)` calls – ANY line numbers `n ≥ 0` in any order (a line
+at or beyond `maxLines` is ignored, 4855857: no hypothesis on `n` is left), lines rewritten, keys that widen the key column, values that raise the running maximum, zero and negative
 values (7b183e0) – returns in a state satisfying `HistoInv` again:
 
 * every written line `i` shows its latest `(key, value)` drawn with the CURRENT state of the writer
@@ -601,7 +603,7 @@ values (7b183e0) – returns in a state satisfying `HistoInv` again:
   running maximum and the key column only grow. -/
 theorem histo_redraw_invariant {α : Type} {A : Arith α} {Dom : Int → Prop} {Unit : α → Prop} {le : α → α → Prop} (U : UnitLaws A Dom Unit le)
     (env : Env) (h : Histo) (vt : VirtualTerm) (hinv : HistoInv A Dom env h vt) (ops : List HistoOp)
-    (hops : ∀ op ∈ ops, op.Valid Dom h.items.length) :
+    (hops : ∀ op ∈ ops, op.Valid Dom) :
     ∃ vt', Histo.runOps A env (h, vt) ops = .ok (h.stateAfterAll env ops, vt') ∧ HistoInv A Dom env (h.stateAfterAll env ops) vt' ∧
       h.SameConfig (h.stateAfterAll env ops) ∧ h.maxVal ≤ (h.stateAfterAll env ops).maxVal ∧
       h.textSpacing ≤ (h.stateAfterAll env ops).textSpacing := by
@@ -909,6 +911,60 @@ theorem spark_render_ok_any {α : Type} {A : Arith α} {Dom : Int → Prop} {Uni
       (¬ (c.rows.length : Int) > mini c.rows.length s.rowCount → s'.footerOffset = 0) :=
   spark_writeTable_ok_u U env s vt hinv hrc hcc hmr rkeys ckeys c hc
 
+/-! ## the legend line of the heatmap (`Heatmap.UpdateMinMax`, `Scaler.ScaleKeys`) -/
+
+/-- `ScaleKeys(6, min, max)` for EVERY instance of the float operations, every scaler and range: between one and six keys,
+no two neighbouring keys equal (consecutive duplicates are dropped), the first and the last key are the first and the last
+of the six raw values `int64(unmapVal((maxf-minf)*i/5 + minf))` -/
+theorem legend_keys_shape {α : Type} (A : Arith α) (k : Scaler) (min max : Int) :
+    1 ≤ (scaleKeys A k 6 min max).length ∧ (scaleKeys A k 6 min max).length ≤ 6 ∧
+    (∀ (i : Nat) (a b : Int), (scaleKeys A k 6 min max)[i]? = some a → (scaleKeys A k 6 min max)[i + 1]? = some b → a ≠ b) ∧
+    (scaleKeys A k 6 min max).head? = (rawKeys A k 6 min max).head? ∧
+    (scaleKeys A k 6 min max).getLast? = (rawKeys A k 6 min max).getLast? := by
+  obtain ⟨a, b, c, d, e⟩ := scaleKeys_shape A k 6 min max (by decide)
+  exact ⟨a, by omega, c, d, e⟩
+
+/-- THE LEGEND LINE, for every float instance satisfying `UnitLaws` (binary64 on int64 included), every scaler, colour/unicode
+on or off, any range in the domain: `Heatmap.UpdateMinMax(min, max)` – the first step of every `WriteTable` – returns and
+writes line 0 = the indentation of the row-key column, then for the `i`-th key `k` of `ScaleKeys(6, min, max)` (four blanks
+between entries) ONE heat cell – the very cell `HeatWrite(Scale(k, min, max))` a data cell of value `k` gets in the rows
+below –, a blank and `Formatter(k, min, max)`: the displayed number is the key under the chosen formatter and the range of
+this call.  No other line changes. -/
+theorem heat_legend_line {α : Type} {A : Arith α} {Dom : Int → Prop} {Unit : α → Prop} {le : α → α → Prop} (U : UnitLaws A Dom Unit le)
+    (env : Env) (h : Heatmap) (vt : VirtualTerm) (ho : vt.closed = false) (mn mx : Int) (hmn : Dom mn) (hmx : Dom mx) :
+    ∃ (vt' : VirtualTerm) (parts : List Bytes), h.updateMinMax A env vt mn mx = .ok ({ h with minVal := mn, maxVal := mx }, vt') ∧ vt'.closed = false ∧
+      vt'.lines[0]? = some (writeRepeat 32 (h.maxRowKeyWidth + 1) ++ parts.flatten) ∧
+      parts.length = (scaleKeys A h.scaler 6 mn mx).length ∧
+      (∀ (i : Nat) (k : Int), (scaleKeys A h.scaler 6 mn mx)[i]? = some k →
+        Dom k ∧ ∃ cell, heatWrite A env (scale A h.scaler k mn mx) = .ok cell ∧ IsHeatCell env cell ∧
+          parts[i]? = some ((if i > 0 then ascii "    " else []) ++ cell ++ [32] ++ h.fmt.apply k mn mx)) ∧
+      (∀ j x, j ≠ 0 → vt.lines[j]? = some x → vt'.lines[j]? = some x) :=
+  heat_legend_line_u U env h vt ho mn mx hmn hmx
+
+/-- THE LINEAR LEGEND (the default scale) over exact rationals, `min < max`: the keys are STRICTLY INCREASING, the first is
+`min` and the last is `max`, so every key lies in the range the heatmap is drawn with – coldest cell first, hottest last -/
+theorem legend_linear_exact (L2 L10 : Rat → Rat) (mn mx : Int) (hlt : mn < mx) :
+    (scaleKeys (ratArith L2 L10) .linear 6 mn mx).Pairwise (· < ·) ∧
+    (scaleKeys (ratArith L2 L10) .linear 6 mn mx).head? = some mn ∧
+    (scaleKeys (ratArith L2 L10) .linear 6 mn mx).getLast? = some mx ∧
+    (∀ k ∈ scaleKeys (ratArith L2 L10) .linear 6 mn mx, mn ≤ k ∧ k ≤ mx) :=
+  scaleKeys_linear_rat L2 L10 mn mx hlt
+
+/-- the boundary of `legend_linear_exact` on the real float computation (a documented quirk of the LEGEND only – the cells and
+numbers of the rows are covered by `heat_render_ok_any`): binary64 has 53 bits, so above `2^53` the last key is `max` rounded
+(`2^53 + 1` shows as `2^53`) or one ulp below it (`(d*5)/5` rounds twice: `2^63 - 513` shows as `2^63 - 2048`), and from `max ≥ 2^63 - 512` on `float64(max)` is `2^63`, whose `int64(…)` wraps on amd64: the
+last legend entry reads `MinInt64` with the coldest cell.  Small ranges are exact: `[0,10]` gives `0 2 4 6 8 10`, `[0,3]` gives
+`0 1 2 3` (duplicates dropped), a degenerate range `[3,3]` gives `3 4` (the range is widened to `[min, min+1]`). -/
+theorem legend_linear_f64_boundary :
+    scaleKeys (f64Arith id id id id) .linear 6 0 10 = [0, 2, 4, 6, 8, 10] ∧
+    scaleKeys (f64Arith id id id id) .linear 6 0 3 = [0, 1, 2, 3] ∧
+    scaleKeys (f64Arith id id id id) .linear 6 3 3 = [3, 4] ∧
+    (scaleKeys (f64Arith id id id id) .linear 6 (-7) 9007199254740993).getLast? = some 9007199254740992 ∧
+    (scaleKeys (f64Arith id id id id) .linear 6 0 9223372036854775295).getLast? = some 9223372036854773760 ∧
+    (scaleKeys (f64Arith id id id id) .linear 6 0 9223372036854775296).getLast? = some (-9223372036854775808) ∧
+    (scaleKeys (f64Arith id id id id) .linear 6 0 9223372036854775807).getLast? = some (-9223372036854775808) := by
+  decide +kernel
+
 /-- the cell values of every reachable aggregated state are int64: `Cells.sample` (the aggregators' `+=`) wraps -/
 theorem sampled_cells_int64 (c : Cells) (hc : DomCells I64 c) (r k : Nat) (inc : Int) : DomCells I64 (c.sample r k inc) := by
   unfold Cells.sample
@@ -988,11 +1044,17 @@ example : UnitLaws (f64Arith (fun x => F64.sub x F64.one) (fun x => F64.sub x F6
   float_laws_f64 logLikeF64_sub_one logLikeF64_sub_one
 example : ∃ h, Histo.new 3 true false .linear .raw = .ok h ∧ HistoInv (f64Arith (fun x => F64.sub x F64.one) (fun x => F64.sub x F64.one) id id) I64 ⟨false, false⟩ h VirtualTerm.new :=
   ⟨_, rfl, (histo_new_invariant (float_laws_f64 logLikeF64_sub_one logLikeF64_sub_one) ⟨false, false⟩ 3 true false .linear .raw _ rfl).1⟩
-example : ∀ op ∈ [HistoOp.total 10, .line 0 (ascii "b") 3, .line 1 (ascii "c") 6, .line 2 (ascii "a key longer than sixteen") 0, .line 7 (ascii "beyond") 1],
-    op.Valid I64 3 := by
+example : ∀ op ∈ [HistoOp.total 10, .line 0 (ascii "b") 3, .line 1 (ascii "c") 6, .line 2 (ascii "a key longer than sixteen") 0, .line 3 (ascii "at the end") 1,
+    .line 7 (ascii "beyond") 1], op.Valid I64 := by
   intro op h
   simp at h
-  rcases h with rfl | rfl | rfl | rfl | rfl <;> simp [HistoOp.Valid, I64, minInt64, maxInt64]
+  rcases h with rfl | rfl | rfl | rfl | rfl | rfl <;> simp [HistoOp.Valid, I64, minInt64, maxInt64]
+/-- a line AT `maxLines` (the call that indexed out of range before 4855857) and one beyond it are ignored: nothing is written,
+the state is unchanged -/
+example : (do let h ← Histo.new 3 true false .linear .raw
+               let r ← Histo.runOps (f64Arith id id id id) ⟨false, false⟩ (h, VirtualTerm.new) [.line 3 (ascii "at the end") 9, .line 7 (ascii "beyond") 9]
+               pure (r.2.lines.length, r.1.maxVal, r.1.items.map Option.isSome) : Res (Nat × Int × List Bool)).toOption
+    = some (0, 0, [false, false, false]) := by decide +kernel
 /-- the redraw at work, on binary64: row 0 is written with maximum 3 (a full bar), then row 1 raises the maximum to 6
 and row 0 is redrawn at half length; the count-0 row with the long key is drawn too (7b183e0) -/
 example : (do let h ← Histo.new 3 true false .linear .raw
@@ -1022,6 +1084,9 @@ example : (do let r ← BarGraph.writeOutput (f64Arith id id id id) ⟨false, fa
               pure (r.2.lines.drop 1 |>.map (fun l => (l.takeWhile (· != 124)).length), r.1.maxKeyLength) : Res (List Nat × Int)).toOption
     = some ([12, 12], 10) := by decide +kernel
 
+/-- the legend at work on binary64 (ASCII mode, range [0,10]): six entries `cell number`, coldest `-` to hottest `9` -/
+example : ((Heatmap.updateMinMax (f64Arith id id id id) ⟨false, false⟩ { rowCount := 5, colCount := 10 } VirtualTerm.new 0 10).toOption.map fun r => r.2.lines)
+    = some [ascii " - 0    1 2    3 4    5 6    7 8    9 10"] := by decide +kernel
 example : DomCells I64 (Cells.sample [] 0 0 1700000000000000000) := sampled_cells_int64 [] (by intro e he; cases he) 0 0 _
 /-- the state of the seeded demo (one cell, 1.7e18, linear scale) on binary64: the heatmap renders; its one cell is the lowest colour -/
 example : ((Heatmap.writeTable (f64Arith id id id id) ⟨false, false⟩ { rowCount := 5, colCount := 10 } VirtualTerm.new [ascii "a"] [ascii "x"]
